@@ -185,7 +185,9 @@ def render_func(prog, fname):
     if ret == "tuple":
         lines.append(f"    return ({tup},)")
     elif ret == "str":
-        lines.append(f"    return repr(({tup},)) + '#' * {f.get('pad', 0)}")
+        # (text results may carry line ends of any convention: they are stored verbatim)
+        eol = f" + {f['eol']!r}" if f.get("eol") else ""
+        lines.append(f"    return repr(({tup},)) + '#' * {f.get('pad', 0)}{eol}")
     elif ret == "bytes":
         lines.append(f"    return (repr(({tup},)) + '#' * {f.get('pad', 0)}).encode('utf-8')")
     elif ret == "none":
